@@ -23,7 +23,7 @@ RULE = ('cases = (metric, y, y_hat) over the full product of the value alphabet,
         'non-zero expected value (the formula, not just the zero case, is exercised)')
 ASSUMPTIONS = ['y, y_hat >= 0 (logarithms / ratios)', 'relative tolerance 1e-12 (1e-9 for R2 near cancellation, absolute 1e-12 x (1 + rss/tss))',
                'alphabet only: this establishes the formulas on the alphabet, not on all reals (stated limit in DESIGN.md)']
-BOUNDS = {'quick': {'vector pairs': 'length 1..4 over {0,1/2,1,2,3} (5^8 at length 4)', 'scale family': 'length<=3, 7 rescalings', 'wrapper curves': 'A,P n<=4'},
+BOUNDS = {'quick': {'vector pairs': 'length 1..4 over {0,1/2,1,2,3} (5^8 at length 4)', 'scale family': 'length<=3, 7 rescalings', 'wrapper curves': 'A,P n<=4', 'large offsets (x+2^31, y+2^32, ...)': 'best-fit R2 on A12 n=4, G12Y013 n=5'},
           'thorough': {'vector pairs': 'length 1..5 over {0,1/2,1,2,3} (5^10)', 'scale family': 'length<=4', 'wrapper curves': 'A,P n<=5'}}
 TECHNIQUE = 'exhaustive enumeration of small vector alphabets on the real (numba-jitted) kernels against textbook formulas (fsum / Fraction)'
 LEVEL_TEXT = ('Model checking by complete enumeration of the vector alphabet: every (y, y_hat) pair up to length 4 (5 thorough) for each metric and R2 variant, '
@@ -55,6 +55,9 @@ def units(tier, seed):
     for prof, n, K in plan:
         for k in range(K):
             u.append(('wrap', prof, n, k, K))
+    for prof, n, K in ([('A12', 4, 4), ('G12Y013', 5, 8)] if tier == 'quick' else [('A12', 4, 4), ('A12', 5, 32), ('A1', 7, 32)]):
+        for k in range(K):
+            u.append(('offset', prof, n, k, K))
     return u
 
 
@@ -251,7 +254,56 @@ def check_wrappers(xs, ys):
     return nontriv, out
 
 
+OFFSETS = [(2.0 ** 31, 0.0), (0.0, 2.0 ** 32), (2.0 ** 31, 2.0 ** 32), (-(2.0 ** 27), 2.0 ** 20)]
+
+
+def check_offset(xs, ys, ox, oy):
+    """Best-fit R2 == squared Pearson correlation for data with a large offset relative to its spread
+    (timestamps, byte counts).  Tolerance: centring x - mean(x) loses eps*offset/spread relative accuracy."""
+    n = len(xs)
+    X = [float(v) + ox for v in xs]
+    Y = [float(v) + oy for v in ys]
+    e2 = pearson_r2_exact(X, Y)
+    if e2 is None:
+        return 0, []
+    pts = curves.points(X, Y)
+    case = {'oracle': 'offset', 'x': list(xs), 'y': list(ys), 'ox': ox, 'oy': oy}
+    key = 'linear_fit.r2 x=%s+%r y=%s+%r' % (list(xs), ox, list(ys), oy)
+    spread = min(max(X) - min(X), max(Y) - min(Y))
+    tol = 1e-12 + 64 * lib.EPS * (max(abs(ox), abs(oy), 1.0) / max(spread, 1e-300))
+    e = float(e2)
+    ea = 1.0 - (1.0 - e) * ((n - 1) / (n - 2))
+    out = []
+    try:
+        got = float(lf.r2(pts[:, 0].copy(), pts[:, 1].copy()))
+        gotp = float(lf.r2_points(pts))
+        gota = float(lf.r2(pts[:, 0].copy(), pts[:, 1].copy(), metrics.R2.adjusted))
+    except Exception as ex:  # noqa: BLE001
+        return 0, [Failure('linear_fit.r2', lib.exc_kind(ex), key, case, repr(ex), (n, 0))]
+    if not (abs(got - e) <= tol) or got != gotp:
+        out.append(Failure('linear_fit.r2', 'not-squared-pearson', key, case, 'expected %r observed %r / %r (tolerance %g)' % (e, got, gotp, tol), (n, 0)))
+    elif not (abs(gota - ea) <= tol * 4):
+        out.append(Failure('linear_fit.r2', 'adjusted-correction-wrong', key, case, 'expected %r observed %r' % (ea, gota), (n, 0)))
+    return 1, out
+
+
 def run_unit(unit, res):
+    if unit[0] == 'offset':
+        _, prof, n, k, K = unit
+        P = curves.get(prof)
+        for i, xs, ys in P.shard(n, k, K):
+            for ox, oy in OFFSETS:
+                nt, fs = check_offset(xs, ys, ox, oy)
+                res.count('evaluations', 3)
+                res.count('states')
+                res.count('transitions', 3)
+                res.count('nontrivial', nt)
+                res.count('offset_cases')
+                for f in fs:
+                    res.fail(f)
+                if not fs:
+                    res.count('traces', 3)
+        return
     if unit[0] == 'pairs':
         _, m, k, K, sy = unit
         nv = len(VALS)
@@ -295,6 +347,8 @@ def run_unit(unit, res):
 
 
 def replay(case):
+    if case['oracle'] == 'offset':
+        return check_offset(case['x'], case['y'], case['ox'], case['oy'])[1]
     if case['oracle'] == 'pair':
         _, fs = check_pair(case['y'], case['yh'], [case['metric']])
         return fs
